@@ -91,9 +91,13 @@ func (x *fnCtx) rederive(st *State, fr *Frame, in ssa.Instruction, v ssa.Value) 
 	case *ssa.MakeSlice:
 		ln := x.getVal(st, fr, i.Len).L[0]
 		cp := x.getVal(st, fr, i.Cap).L[0]
-		return &Val{T: i.Type(), L: []*Term{Sym(hint+"#arr", SInt), IntLit(0), ln, cp}}
+		r := Sym(hint+"#arr", SInt)
+		x.rederivedAllocFacts(st, fr, in, r)
+		return &Val{T: i.Type(), L: []*Term{r, IntLit(0), ln, cp}}
 	case *ssa.Alloc:
-		out := &Val{T: i.Type(), L: []*Term{Sym(hint, SInt)}}
+		r := Sym(hint, SInt)
+		x.rederivedAllocFacts(st, fr, in, r)
+		out := &Val{T: i.Type(), L: []*Term{r}}
 		return out
 	case *ssa.MakeClosure:
 		fnv := &FnVal{Fn: i.Fn.(*ssa.Function)}
@@ -107,6 +111,56 @@ func (x *fnCtx) rederive(st *State, fr *Frame, in ssa.Instruction, v ssa.Value) 
 		st.assume(f)
 	}
 	return out
+}
+
+// rederivedAllocFacts: an allocation executed earlier in this call (before the loop head the
+// path started from) is not part of the entry heap and differs from every reference that
+// existed before it (values defined in dominating positions).
+func (x *fnCtx) rederivedAllocFacts(st *State, fr *Frame, in ssa.Instruction, r *Term) {
+	top := st.frames[0]
+	if top.oldHeap != nil {
+		alloc0 := hget(top.oldHeap, "$alloc", ArrSort(SInt, SBool))
+		st.assume(Not(Select(alloc0, r)))
+	}
+	st.assume(Lt(IntLit(0), r))
+	blk := in.Block()
+	var before []ssa.Instruction
+	for _, d := range domChain(blk) {
+		before = append(before, d.Instrs...)
+	}
+	for _, i2 := range blk.Instrs {
+		if i2 == in {
+			break
+		}
+		before = append(before, i2)
+	}
+	for _, i2 := range before {
+		v, ok := i2.(ssa.Value)
+		if !ok {
+			continue
+		}
+		if _, isPhi := i2.(*ssa.Phi); isPhi {
+			continue
+		}
+		if _, isTup := v.Type().(*types.Tuple); isTup {
+			continue
+		}
+		hasRef := false
+		for _, l := range layout(v.Type()) {
+			if l.Role == "ref" || l.Role == "arr" {
+				hasRef = true
+			}
+		}
+		if !hasRef {
+			continue
+		}
+		ov := x.getVal(st, fr, v)
+		for li, l := range layout(v.Type()) {
+			if (l.Role == "ref" || l.Role == "arr") && li < len(ov.L) && ov.L[li] != r {
+				st.assume(Ne(ov.L[li], r))
+			}
+		}
+	}
 }
 
 func (x *fnCtx) constVal(c *ssa.Const) *Val {
@@ -421,7 +475,7 @@ func (x *fnCtx) makeSlice(st *State, fr *Frame, v *ssa.MakeSlice) *Val {
 	ln := x.getVal(st, fr, v.Len).L[0]
 	cp := x.getVal(st, fr, v.Cap).L[0]
 	if x.eng.cfg.Layers["safety"] {
-		x.addVC(st, x.curShort(fr), "makeslice", x.ord(fr, v), "", And(Le(IntLit(0), ln), Le(ln, cp), Le(cp, BigLit(maxLen))), "make: 0 <= len <= cap", x.eng.posStr(v.Pos()))
+		x.addVC(st, x.curShort(fr), "makeslice", x.ord(fr, v), "", And(Le(IntLit(0), ln), Le(ln, cp), Le(cp, BigLit("4611686018427387904"))), "make: 0 <= len <= cap", x.eng.posStr(v.Pos()))
 	}
 	st.assume(And(Le(IntLit(0), ln), Le(ln, cp)))
 	r := x.newRef(st, "mkslice")
